@@ -45,9 +45,7 @@ def instances(draw, fn="vp"):
     }
     if fn == "nnls" and draw(st.booleans()):
         # half of the NNLS instances are forced into the region where the pinned scipy nnls is reliable
-        case["log10_data_scale"] = 0
-        case["col_scale_decades"] = draw(st.sampled_from([0, 2]))
-        case["log10_cond"] = draw(st.floats(0, 2.9))
+        case["log10_cond"] = draw(st.floats(0, 3.9))
         if fam in ("kinetic", "kinetic_sum", "oscillation"):
             case["rate_spacing"] = draw(st.sampled_from([0.3, 1.0]))
             case["n"] = min(case["n"], 3)
@@ -130,9 +128,9 @@ def in_reliable_region(A, y, params=None):
     """Region in which the pinned scipy nnls was measured to be reliable (see known finding N1)."""
     params = params or {}
     sv = np.linalg.svd(A, compute_uv=False)
-    if sv[-1] == 0 or sv[0] / sv[-1] >= params.get("cond", 1e3):
+    if sv[-1] == 0 or sv[0] / sv[-1] >= params.get("cond", 1e4):
         return False
-    lo, hi = params.get("norm_lo", 1e-2), params.get("norm_hi", 1e3)
+    lo, hi = params.get("norm_lo", 0.0), params.get("norm_hi", 1e308)
     cn = np.linalg.norm(A, axis=0)
     ny = np.linalg.norm(y)
     return bool(cn.min() >= lo and cn.max() <= hi and (ny == 0 or lo <= ny <= hi))
